@@ -284,6 +284,41 @@ fn main() {
     let (mut th, mut tc) = (0u64, 0u64);
     let mut all_exhaustive = true;
 
+    // derived programs (de-duplication stress): every value-only program of at most two calls,
+    // emitted twice over aliased inputs, the copy pinned to a public input, three consumers
+    let derived_checked = AtomicU64::new(0);
+    {
+        use vpe1::enumerate::{Family, VK};
+        let base = Family {
+            name: "dupbase-k2-c0".into(),
+            value_kinds: vec![VK::Add, VK::Sub, VK::Mul, VK::MulAdd],
+            assert_kinds: vec![],
+            max_value_ops: 2,
+            max_asserts: 0,
+            max_pub: 3,
+            max_priv: 0,
+            consts: vec![2],
+            max_wide: 1,
+            wide_no_atoms: true,
+            sym_reduce: true,
+            stages: vec![],
+            assert_split: None,
+        };
+        let (s2, p2, st2) = (SeenSet::default(), SeenSet::default(), Stats::default());
+        explore::<F, F>(&base, &cs, &ctx, 0.95, &s2, &p2, &st2, &|_p, _m| {}, &|p, _m| {
+            let Some(q) = vpe1::prog::duplicate_with_aliases(p) else { return };
+            derived_checked.fetch_add(1, Ordering::Relaxed);
+            if let Some(b) = check_program(&q, &cs, Some(&cnt), Some(&histo)) {
+                report.violation(
+                    format!("rel_dropped:{}", q.show()),
+                    format!("{} — an ops-satisfying assignment violates the source relation {}", q.show(), b.detail),
+                    json!({"program": q, "derived_from": p, "assignment": b.assignment, "detail": b.detail}),
+                );
+            }
+        });
+        eprintln!("derived alias-duplicated programs checked: {}", derived_checked.load(Ordering::Relaxed));
+    }
+
     for (fi, fam) in fams.iter().enumerate() {
         let stats = Stats::default();
         let seen_prune = SeenSet::default();
